@@ -468,6 +468,54 @@ class Sym:
             return e
         return None
 
+
+    def clobber_blocks(self, field, self_local=1):
+        """blocks whose call terminator may change `(*self).field` behind the analysis' back: the call receives `self` itself or a
+        `&mut` reborrow of the whole of `*self`, and either is not an in-crate function, or (transitively) stores a field of that
+        name, or hands back a `&mut` (a later store through the returned reference is not a visible store to the field)."""
+        fn = self.fn
+        prog = self.prog
+        key = ("clob", fn.id, field, self_local)
+        cache = prog.__dict__.setdefault("_clobber_cache", {})
+        if key in cache:
+            return cache[key]
+        out = set()
+        for b in fn.blocks:
+            if b.cleanup or b.term[0] != "call":
+                continue
+            site = b.term[1]
+            hit = False
+            for a in site["args"]:
+                pp = op_place(a)
+                if pp is None:
+                    continue
+                l = pp if isinstance(pp, int) else pp[0]
+                if l == self_local and isinstance(pp, int) and (fn.local_ty(self_local) or "").startswith("&mut"):
+                    hit = True
+                    break
+                if not (fn.local_ty(l) or "").startswith("&mut"):
+                    continue
+                d = fn.single_def(l)
+                if d and d[1] != "t" and d[2] == "assign":
+                    rv = fn.blocks[d[0]].stmts[d[1]][2]
+                    if rv[0] == "ref" and rv[1] == "mut" and not isinstance(rv[2], int) and rv[2][0] == self_local and [e[0] for e in rv[2][1]] == ["*"]:
+                        hit = True
+                        break
+            if not hit:
+                continue
+            cal = site.get("callee")
+            dty = ir.pl_ty(fn, site["dest"]) or ""
+            if cal in prog.fns and not dty.startswith("&mut"):
+                wk = ("writes", cal, field)
+                if wk not in cache:
+                    fns_ = [prog.fns[i] for i in prog.reach([cal]) if i in prog.fns and not prog.fns[i].promoted]
+                    cache[wk] = any(True for _ in field_stores(prog, field=field, fns=fns_)) or any(True for _ in mut_borrows_named(prog, field, fns_))
+                if not cache[wk]:
+                    continue
+            out.add(b.idx)
+        cache[key] = out
+        return out
+
     def field_exit_value(self, field, self_local=1):
         """value of `(*self).field` when the function returns, as a select-tree over the branch decisions of every acyclic
         path (leaves: the expression last stored on the path, or the entry value of the field).  None when a path reads the
@@ -494,6 +542,7 @@ class Sym:
                 if st[2][0] in ("ref",) and is_field_place(st[2][2]) and st[2][1] == "mut":
                     return None
         exits = [b.idx for b in fn.blocks if b.term[0] == "return" and not b.cleanup]
+        clob = self.clobber_blocks(field, self_local)
         paths = []
         count = [0]
 
@@ -507,6 +556,9 @@ class Sym:
             for (i, rv) in stores.get(b, []):
                 # a read in the same statement (x += y) reads the entry value only if nothing was stored before
                 last = (b, i, rv)
+                stored = True
+            if b in clob:
+                last = (b, "clob", None)     # a callee holding `&mut self` may have changed the field: value unknown from here
                 stored = True
             t = fn.blocks[b].term
             if t[0] == "return":
@@ -534,6 +586,8 @@ class Sym:
             if last is None:
                 return entry
             b, i, rv = last
+            if rv is None:
+                return ("unknown",)
             saved = getattr(self, "_pos", None)
             self._pos = (b, i)
             try:
@@ -605,6 +659,7 @@ class Sym:
                 if st[0] == "=" and st[2][0] == "ref" and is_field_place(st[2][2]) and st[2][1] == "mut":
                     return None
         paths = []
+        clob_seq = self.clobber_blocks(field, self_local)
 
         def dfs(b, seen, blocks, decisions):
             if len(paths) > cap:
@@ -657,6 +712,8 @@ class Sym:
                 tm = fn.blocks[b].term
                 if tm[0] == "call" and is_field_place(tm[1]["dest"]):
                     return None
+                if b in clob_seq:
+                    hist.append(((order[b], 10 ** 9), ("unknown",)))
             val = hist[-1][1] if hist else entry
             if contains(val, lambda x: x[0] == "unknown"):
                 return None
@@ -1172,3 +1229,16 @@ def mut_borrows_of_field(prog, adt, field, fns=None):
                     for e in s[2][2][1]:
                         if e[0] == "." and e[3] == adt and e[2] == field:
                             yield (f, b.idx, s[3])
+
+
+def mut_borrows_named(prog, field, fns):
+    """`&mut x.<field>` borrows in fns, whatever the ADT (a way to write the field without a visible store)"""
+    for f in fns:
+        for b in f.blocks:
+            if b.cleanup:
+                continue
+            for st in b.stmts:
+                if st[0] == "=" and st[2][0] == "ref" and st[2][1] == "mut" and not isinstance(st[2][2], int):
+                    for e in st[2][2][1]:
+                        if e[0] == "." and e[2] == field:
+                            yield (f, b.idx)
